@@ -10,7 +10,7 @@
 From Coq Require Import List NArith Arith Bool.
 From Verif.Common Require Import Prefix.
 From Coq Require Import Permutation.
-From Verif.C43 Require Import Model Spec Proofs Final FinalProofs Blackhole MgrProofs FlushPerm Order.
+From Verif.C43 Require Import Model Spec Proofs Final FinalProofs Blackhole MgrProofs FlushPerm Reflag Peer PoolUpd Order.
 Import ListNotations.
 Open Scope N_scope.
 
@@ -112,9 +112,54 @@ Theorem c43_order_independent_refuted_stale_direct :
 Proof. exact order_refuted_stale_direct. Qed.
 Print Assumptions c43_order_independent_refuted_stale_direct.
 
-(* c43_order_independent (for every history of the repaired resolver, kernel routes of remote destinations =
-   programmed (state_of history)) is NOT proved: see the report.  On the witnesses above the repaired
-   variant does reach the function of the state: *)
+(* ORDER INDEPENDENCE, what IS proved of the incremental resolver (model of the event-driven code, every state s,
+   not only reachable ones).  A route for CIDR k is "up to date" in s when the accumulated route set holds exactly
+   what flush() would compute from the current trie and node table.  For a CIDR whose own trie entry is a block /
+   borrowed-address entry of a remote node n (no host, no local workload on it) that has been sent:
+
+   (1) an update of the LOCAL node (address, subnet, appearing, disappearing, IPv4 appearing / disappearing) keeps
+       it up to date -- for the REPAIRED re-flagging walk (fixed = true); false for the pinned code, see the
+       refutations above; *)
+Theorem c43_reflag_complete_local_node : forall s v k po n,
+  s_dirty s = [] -> wfp 32 k -> k <> host32 0 ->
+  tget (s_trie s) k = mkRI po (Some n) [] 0 true -> n <> me ->
+  aget prefix_eqb (s_out s) k = Some (compute (s_trie s) (s_nodes s) k) ->
+  let s' := apply_op true s (OpNode me v) in
+  aget prefix_eqb (s_out s') k = Some (compute (s_trie s') (s_nodes s') k).
+Proof. exact reflag_complete. Qed.
+Print Assumptions c43_reflag_complete_local_node.
+
+(* (2) an update of any PEER node m keeps it up to date, provided the route is indexed in nodeRoutes when m is
+       its owner (OnBlockUpdate adds that index entry together with the trie entry); both variants; *)
+Theorem c43_reflag_complete_peer_node : forall f s m v k po n,
+  s_dirty s = [] -> wfp 32 k -> k <> host32 0 -> m <> me ->
+  tget (s_trie s) k = mkRI po (Some n) [] 0 true -> n <> me ->
+  (m = n -> exists c, In ((n, k), c) (s_nr s)) ->
+  aget prefix_eqb (s_out s) k = Some (compute (s_trie s) (s_nodes s) k) ->
+  let s' := apply_op f s (OpNode m v) in
+  aget prefix_eqb (s_out s') k = Some (compute (s_trie s') (s_nodes s') k).
+Proof. exact peer_update_complete. Qed.
+Print Assumptions c43_reflag_complete_peer_node.
+
+(* (3) any IP pool update or deletion (mode flip, cross-subnet flip, pool appearing around or disappearing from
+       around k) keeps it up to date; both variants. *)
+Theorem c43_reflag_complete_pool : forall f s c v k po n,
+  s_dirty s = [] -> wfp 32 k -> k <> host32 0 ->
+  tget (s_trie s) k = mkRI po (Some n) [] 0 true ->
+  aget prefix_eqb (s_out s) k = Some (compute (s_trie s) (s_nodes s) k) ->
+  let s' := apply_op f s (OpPool c v) in
+  aget prefix_eqb (s_out s') k = Some (compute (s_trie s') (s_nodes s') k).
+Proof. exact pool_update_complete. Qed.
+Print Assumptions c43_reflag_complete_pool.
+
+(* c43_order_independent at full strength (for every history of the repaired resolver, the kernel routes of the
+   remote destinations = programmed (state_of history)) is NOT proved.  Missing: (a) the trie content as a function
+   of the datastore state (the blockToRoutes / nodeRoutes / workloadIDToCIDRs bookkeeping of OnBlockUpdate and
+   OnWorkloadUpdate, which needs "block keys never overlap"), (b) the block / workload update steps (there only the
+   kernel-relevant projection of a route stays up to date: Borrowed and the LOCAL/REMOTE_WORKLOAD bits inherited from
+   a parent block are not re-flagged when the parent changes), (c) chaining (1)-(3) along a history.  The
+   correspondence run compares the real resolver with the function of the final state on every case instead.
+   On the witnesses above the repaired variant does reach the function of the state: *)
 Example c43_order_witnesses_fixed :
   routes_for (kernel_after true hist_gain) w_block = programmed (state_of hist_gain) w_block
   /\ routes_for (kernel_after true hist_lose) w_block = programmed (state_of hist_lose) w_block
